@@ -21,6 +21,8 @@ type cnode struct {
 	idx  int
 	// kinds of the neighbours (previous / next sibling, or the parent at an edge)
 	leftK, rightK string
+	parentK       string
+	textBefore    bool // an earlier sibling is a text with words
 }
 
 func buildForest(nodes []ANode) []*cnode {
@@ -61,6 +63,7 @@ type docGen struct {
 	layoutNoise  bool   // list items / quotes / pre may carry display:inline-block (C07)
 	markupText   bool   // some texts show markup as text (C05: nothing of it may come alive)
 	inlineJunk   bool   // inline formatting elements may hold hidden spans / scripts (C04)
+	mediaSeps    bool   // separator signs (text without a word) in front of media inside a line (C08)
 	noTitle      bool   // no <title> element (C09: the word-count clause needs pages without title)
 }
 
@@ -197,6 +200,12 @@ func (g *docGen) layoutStyle() string {
 func (g *docGen) linkKids(kids []*cnode, parentK string) {
 	for i, c := range kids {
 		c.leftK, c.rightK = parentK, parentK
+		c.parentK = parentK
+		for j := 0; j < i; j++ {
+			if kids[j].k == "T" || kids[j].k == "t" {
+				c.textBefore = true
+			}
+		}
 		// what a reader sees next to the text: comments and hidden elements are not there at all
 		for j := i - 1; j >= 0; j-- {
 			if !unseen[kids[j].k] {
@@ -278,7 +287,17 @@ func (g *docGen) wrap(tag, attrs, inner string) string {
 	return "<" + tag + attrs + g.noiseAttrs() + ">" + inner + "</" + tag + ">"
 }
 
+// render: one node; media that follow something in the same line are sometimes set off by a separator sign -
+// a piece of text without a single word
 func (g *docGen) render(n *cnode) string {
+	out := g.render0(n)
+	if g.mediaSeps && n.parentK == "P" && n.textBefore && (n.k == "IMG" || n.k == "VID" || n.k == "EMB") && g.rng.Intn(2) == 0 {
+		out = g.pick(" | ", " \u00b7 ", " \u2014 ", " *** ") + out
+	}
+	return out
+}
+
+func (g *docGen) render0(n *cnode) string {
 	switch n.k {
 	case "T":
 		w := g.words(g.long)
@@ -342,6 +361,10 @@ func (g *docGen) render(n *cnode) string {
 		}
 		return g.wrap(g.pick("div", "p", "section"), g.hideAttr(), g.kidsHTML(n))
 	case "HIN":
+		if g.rng.Intn(4) == 0 {
+			// the element the converter rewrites (font -> span) may be hidden too
+			return "<font" + g.hideAttr() + ` color="red" face="serif">` + g.kidsHTML(n) + "</font>"
+		}
 		return g.wrap(g.pick("span", "b", "em"), g.hideAttr(), g.kidsHTML(n))
 	case "SKS":
 		w := g.rawWords(n)
@@ -357,6 +380,10 @@ func (g *docGen) render(n *cnode) string {
 		case "style":
 			return "<style>." + strings.ReplaceAll(w, " ", " .") + " {color:red}</style>"
 		case "noscript":
+			if g.rng.Intn(3) == 0 {
+				// the usual content of noscript: fallback markup, with everything markup carries
+				return "<noscript" + g.noiseAttrs() + "> " + w + fmt.Sprintf(` <img src="/i/zqns%d.png" id="nx%d" class="kx%d" style="color:red" onerror="zqh()" data-zq="v"> </noscript>`, g.marker(), g.rng.Intn(900), g.rng.Intn(900))
+			}
 			return "<noscript" + g.noiseAttrs() + "> " + w + " </noscript>"
 		case "svg":
 			return "<svg" + g.noiseAttrs() + ` viewBox="0 0 10 10"><path d="M0 0L9 9"` + g.noiseAttrs() + "></path><text" + g.noiseAttrs() + "> " + w + " </text></svg>"
@@ -474,7 +501,10 @@ func (g *docGen) render(n *cnode) string {
 			img = g.pick(`<div class="zqlazy"></div>`, `<canvas width="4" height="3"></canvas>`, ``) + fmt.Sprintf(`<noscript><img src="/i/m%d.png"></noscript>`, m)
 		case "picture":
 			junk := g.pick("", `<span hidden>`+g.words(2)+`</span>`, `<!-- `+g.words(2)+` -->`, `<script>var `+g.words(1)+`;</script>`)
-			img = fmt.Sprintf(`<picture%s><source srcset="/i/m%d-s.webp"%s>%s<img src="/i/m%d.png"%s></picture>`, g.noiseAttrs(), m, g.noiseAttrs(), junk, m, g.noiseAttrs())
+			// pretty-printed markup, and a stray word behind the image (fallback text nobody sees)
+			sep := g.pick("", "\n  ", "\n  ")
+			tail := g.pick("", "", sep+g.words(2)+" ", sep+g.words(1)+sep+`<span>`+g.words(1)+`</span>`+sep)
+			img = fmt.Sprintf(`<picture%s>%s<source srcset="/i/m%d-s.webp"%s>%s%s<img src="/i/m%d.png"%s>%s%s</picture>`, g.noiseAttrs(), sep, m, g.noiseAttrs(), junk, sep, m, g.noiseAttrs(), tail, sep)
 		}
 		cap := g.kidsHTML(n)
 		if len(n.kids) == 0 {
